@@ -17,8 +17,8 @@ RULE = ("cases from rng(seed, 16, 0, i): 4 of 5 cases evaluate BaseEdge.calc_jac
         "generic rotations, a fifth of them with a bit-exactly zero residual) and on built-in odometry/landmark edges; 1 of 5 optimizes a cluster graph whose custom edges use numerical Jacobians and its AD twin "
         "(tol=1e-12, max_iter=50) inside the C05 neighbourhood. distinct = fingerprint of the edge operands / spec; non-trivial = Jacobian with a non-zero rotational block "
         "or twin graphs that moved by > 1e-6.")
-REQ = ["eval:numerical-jacobian-accuracy", "eval:twin-optimum-agrees", "eval:twin-chi2-agrees"] + ["family:" + n for n in custom.TYPES if n != "faulty"] + ["family:builtin-odometry", "family:builtin-landmark",
-                                                                                                                          "class:ternary", "class:unary", "kind:se3", "kind:se2", "class:exactly_zero_residual"]
+REQ = ["eval:numerical-jacobian-accuracy", "eval:twin-optimum-agrees", "eval:twin-chi2-agrees"] + ["family:" + n for n in custom.TYPES if n not in ("faulty", "robustprior")] + ["family:builtin-odometry", "family:builtin-landmark",
+                                                                                                                          "class:ternary", "class:unary", "kind:se3", "kind:se2", "class:exactly_zero_residual", "class:aliased_pose_objects", "class:evaluated_again_after_edits"]
 PLAN = {
     "quick": {"cases": 2500, "soft_s": 80, "min_nontrivial": 600, "require": REQ},
     "thorough": {"cases": 120000, "soft_s": 1400, "min_nontrivial": 30000, "require": REQ},
@@ -133,7 +133,7 @@ def jacobian_check(ctx, e, fam, case):
 
 
 def direct_case(ctx, i, rng):
-    fams = [n for n in custom.TYPES if n != "faulty"] + ["builtin-odometry", "builtin-landmark"]
+    fams = [n for n in custom.TYPES if n not in ("faulty", "robustprior")] + ["builtin-odometry", "builtin-landmark"]
     fam = fams[(i // 5) % len(fams)]
     k = R.KINDS[(i // 45) % 4] if False else str(rng.choice(R.KINDS))
     scale = float(10 ** rng.uniform(0, 3))
@@ -159,6 +159,43 @@ def direct_case(ctx, i, rng):
                 if not np.any(np.atleast_1d(e.calc_error())):
                     ctx.count("class:exactly_zero_residual")
     case = {"family": fam, "kind": k, "edge": spec, "poses": ps}
+    u = rng.random()
+    if not fam.startswith("builtin") and u < 0.2:
+        # aliasing: the measurement *is* the vertex's pose object (PriorEdge([i], info, v.pose)), or two vertices of an n-ary edge share one pose object
+        if fam == "prior":
+            e.estimate = e.vertices[0].pose
+            case["aliasing"] = "estimate is the vertex pose object"
+        elif len(e.vertices) >= 2 and M.kind(e.vertices[0].pose) == M.kind(e.vertices[-1].pose) and fam in ("midpoint",):
+            e.vertices[-1].pose = e.vertices[0].pose
+            case["aliasing"] = "two vertices share one pose object"
+        if "aliasing" in case:
+            ctx.count("class:aliased_pose_objects")
+            case["poses"] = [M.fl(v.pose) for v in e.vertices]
+    elif u < 0.4:
+        # history: evaluate once, then change the measurement / a pose in place on the same edge object, then evaluate again
+        with np.errstate(all="ignore"):
+            try:
+                M.BaseEdge.calc_jacobians(e)
+                e.calc_chi2_gradient_hessian()
+            except Exception:
+                pass
+        from . import c01
+
+        hist = []
+        for _ in range(int(rng.integers(1, 3))):
+            if fam.startswith("builtin") or isinstance(e.estimate, M.BasePose):
+                hist.append(c01.mutate_operand(rng, e))
+            else:
+                j = int(rng.integers(len(e.vertices)))
+                kk = M.kind(e.vertices[j].pose)
+                e.vertices[j].pose[:] = M.fl(M.mkpose(kk, gen.normalize_pose(kk, gen.mild_pose(rng, kk, scale))))
+                hist.append("vertex%d:in-place" % j)
+                if np.ndim(e.estimate) > 0 and rng.random() < 0.5:
+                    e.estimate = np.asarray(e.estimate, dtype=float) + rng.normal(size=np.shape(e.estimate)) * 0.1
+                    hist.append("estimate:replace")
+        case["history"] = hist
+        case["poses"] = [M.fl(v.pose) for v in e.vertices]
+        ctx.count("class:evaluated_again_after_edits")
     jacobian_check(ctx, e, fam, case)
     ctx.count("family:" + fam)
     ctx.count("kind:" + k)
